@@ -79,11 +79,17 @@ func (t *RTPTransceiver) getCodecs() []RTPCodecParameters {
 	}
 
 	filteredCodecs := []RTPCodecParameters{}
+	usedPayloadTypes := map[PayloadType]bool{}
 	for _, codec := range t.codecs {
 		if c, matchType := codecParametersFuzzySearch(codec, mediaEngineCodecs); matchType != codecMatchNone {
 			if codec.PayloadType == 0 {
 				codec.PayloadType = c.PayloadType
 			}
+			// a payload type can be listed only once in a media section
+			if usedPayloadTypes[codec.PayloadType] {
+				continue
+			}
+			usedPayloadTypes[codec.PayloadType] = true
 			codec.RTCPFeedback = rtcpFeedbackIntersection(codec.RTCPFeedback, c.RTCPFeedback)
 			filteredCodecs = append(filteredCodecs, codec)
 		}
